@@ -94,6 +94,20 @@ def cases(ctx):
                 out.append({"kind": "phase-disagreement", "rom": rom, "spec": {"t": "reject"},
                             "src": (f"*={org:#08x}\ncounter := 0x10\n{reloc}{{\n{mn} counter\ntick_done:\nrts\ncounter = 0x7e2100\n}}\n"
                                     f"ram_code_end:\n*={org + 0x100:#08x}\nhook:\n.dl tick_done, ram_code_end, hook\n".replace("tick_done, ", ""))})
+    # the same file included in several scopes (blocks, applications of one macro, loop iterations): each copy's start and
+    # size symbols belong to the scope the .incbin stands in, every reference sees ITS copy
+    for rom, org in (("low", 0x018000), ("high", 0x410000)):
+        blob = [0x11, 0x22, 0x33]
+        data = ".db " + ", ".join(str(b) for b in blob) + "\n"
+        for wname, src, twin in (
+                ("blocks", "{\nnop\n.incbin 'f.bin'\n.dl f_bin\n.db f_bin__size\n}\n{\n.incbin 'f.bin'\n.dl f_bin\n}\n",
+                 "{\nnop\nzz_a:\n" + data + ".dl zz_a\n.db 3\n}\n{\nzz_b:\n" + data + ".dl zz_b\n}\n"),
+                ("macro", ".macro zz_te(k) {\n.db k\n.incbin 'f.bin'\n.pointer f_bin\n.dw f_bin & 0xFFFF\n}\nzz_te(1)\nnop\nzz_te(2)\n",
+                 "{\n.db 1\nzz_a:\n" + data + ".pointer zz_a\n.dw zz_a & 0xFFFF\n}\nnop\n{\n.db 2\nzz_b:\n" + data + ".pointer zz_b\n.dw zz_b & 0xFFFF\n}\n"),
+                ("scope-export", ".scope zz_s1 {\n.incbin 'f.bin'\n}\n.scope zz_s2 {\nnop\n.incbin 'f.bin'\n}\n.dl zz_s1.f_bin, zz_s2.f_bin\n",
+                 "zz_a:\n" + data + "nop\nzz_b:\n" + data + ".dl zz_a, zz_b\n")):
+            out.append({"kind": f"incbin-per-scope:{wname}", "rom": rom, "files": {"f.bin": blob}, "spec": {"t": "twin", "labels": False},
+                        "src": f"*={org:#08x}\n{src}", "twin_src": f"*={org:#08x}\n{twin}"})
     # a name reused in an inner scope: every use, and the exported scope.name, is the address of ITS definition
     for rom, org in (("low", 0x028000), ("high", 0x410000)):
         for outer_wrap in (".scope menu {\n%s}\n.dl menu.x\n", "{\n%s}\n", "%s"):
@@ -123,4 +137,4 @@ def cases(ctx):
         for spec in ({"t": "trace"}, {"t": "blocks", "high": rom == "high"}):
             out.append({"kind": "double-cross", "rom": rom, "trace": True, "spec": spec, "files": {"big.bin": blob},
                         "src": f"*={org:#08x}\nbefore:\n.incbin 'big.bin'\nafter:\n.dl after, before\nnop\n"})
-    return core.mark_must_assemble(out, {'bank-cross', 'ips-in-run', 'empty-expansion', 'double-cross', 'reuse-in-scope', 'backward'})
+    return core.mark_must_assemble(out, {'incbin-per-scope', 'bank-cross', 'ips-in-run', 'empty-expansion', 'double-cross', 'reuse-in-scope', 'backward'})
